@@ -15,6 +15,7 @@ RULE = (
     "the invariant is checked after every operation; a second family drives real TDGLSolver.update calls (screening / "
     "time-dependent field, optionally starting from a non-zero induced potential as a seeded run does) and compares solver.operators with a rebuild after every step and the potential in use at every screening iteration; non-trivial = >= 2 distinct potentials and a "
     "non-empty pinned set; distinct by spec hash"
+    "; the potential may be handed over as one buffer overwritten in place"
 )
 ASSUMPTIONS = [
     "dense comparison of matrices (values and sparsity pattern after eliminating explicit zeros) on meshes <= 600 sites",
